@@ -58,12 +58,16 @@ func ResponseFromBytes(data []byte) (*Response, error) {
 }
 
 func ResponseFromReader(r io.Reader) (*Response, error) {
+	data, err := io.ReadAll(r)
+	if err != nil {
+		return nil, err
+	}
+
 	response := new(Response)
 
-	dec := json.NewDecoder(r)
-
-	err := dec.Decode(response)
-	if err != nil {
+	// The whole input must be one JSON document: a Decoder stops after
+	// the first value and accepts whatever follows it.
+	if err := json.Unmarshal(data, response); err != nil {
 		return nil, err
 	}
 
